@@ -17,6 +17,7 @@ use crate::{
 pub enum DetCase {
     Hist(History),
     Save(SaveCase),
+    Merge(props_save::MergeCase),
 }
 
 /// The transcript of one case, or the violation that stopped it.
@@ -30,6 +31,7 @@ pub fn transcript(case: &DetCase) -> Result<Vec<String>, Violation> {
             v
         }),
         DetCase::Save(s) => props_save::det_save(s),
+        DetCase::Merge(m) => props_save::det_merge(m),
     }
 }
 
@@ -37,6 +39,7 @@ fn det_case(max_ops: usize) -> impl Strategy<Value = DetCase> {
     prop_oneof![
         3 => hist::history_strategy(hist::MIXED_PROFILE, max_ops).prop_map(DetCase::Hist),
         1 => props_save::save_case().prop_map(|mut c| { c.uuid = false; c.shuffle = None; DetCase::Save(c) }),
+        1 => props_save::merge_case_strategy(max_ops.min(40)).prop_map(DetCase::Merge),
     ]
 }
 
@@ -64,6 +67,7 @@ fn nontrivial(c: &DetCase) -> bool {
             hashy && h.ops.len() >= 6
         }
         DetCase::Save(s) => s.ents.iter().filter(|e| e.marked).count() >= 3,
+        DetCase::Merge(m) => m.ops.iter().any(|o| matches!(o, props_save::MOp::Load { .. })) && m.ops.len() >= 6,
     }
 }
 
@@ -115,6 +119,7 @@ fn c20_run(ctx: &ShardCtx) -> ShardResult {
             stats.label(match case {
                 DetCase::Hist(_) => "history",
                 DetCase::Save(_) => "saveload",
+                DetCase::Merge(_) => "merge-history",
             });
             group.push((case, a));
         }
@@ -142,7 +147,7 @@ fn c20_run(ctx: &ShardCtx) -> ShardResult {
                 }
             }
             (st, _) => {
-                return fail(stats, Violation::new("INFRA", "child", format!("transcript child process failed: {:?}", st)), &group.first().map(|g| g.0.clone()).unwrap_or(DetCase::Save(SaveCase { ents: vec![], holes: vec![], shift: 0, recursive: false, ron: false, uuid: false, shuffle: None })));
+                return fail(stats, Violation::new("INFRA", "child", format!("transcript child process failed: {:?}", st)), &group.first().map(|g| g.0.clone()).unwrap_or(DetCase::Save(SaveCase { ents: vec![], holes: vec![], shift: 0, recursive: false, ron: false, uuid: false, shuffle: None, churn: vec![], late: vec![], reload_after_wipe: false })));
             }
         }
     }
@@ -219,7 +224,7 @@ pub fn c20() -> Property {
             shards: |t: Tier| t.pick(8, 16),
             run: c20_run,
             replay: c20_replay,
-            rule: "single-threaded world histories (mixed profile: all creation / deletion paths, maintain, storage operations on 2..6 storages incl. HashMapStorage and the tracked wrappers, lazy updates) and save/load cases (SimpleMarker, JSON and RON, recursive and not); the full transcript (every handle, every result, the entities join and every storage's join after each step, every event read from tracked storages, serialised bytes, the loaded world and its re-serialisation) is produced twice in this process (two worlds) and once in a fresh process (different RandomState / ahash seeds and address layout) and must be identical; destructor order at teardown is not part of the transcript; non-trivial = a history over a hash-backed storage with >= 6 operations, or a save case with >= 3 marked entities",
+            rule: "single-threaded world histories (mixed profile: all creation / deletion paths, maintain, storage operations on 2..6 storages incl. HashMapStorage and the tracked wrappers, lazy updates) save/load cases (SimpleMarker, JSON and RON, recursive and not) and mark / delete / maintain / allocator-maintain / save / load histories over two worlds (SimpleMarker, and UuidMarker with explicit ids only); the full transcript (every handle, every result, the entities join and every storage's join after each step, every event read from tracked storages, serialised bytes, the loaded world and its re-serialisation) is produced twice in this process (two worlds) and once in a fresh process (different RandomState / ahash seeds and address layout) and must be identical; destructor order at teardown is not part of the transcript; non-trivial = a history over a hash-backed storage with >= 6 operations, or a save case with >= 3 marked entities",
             exe_env: None,
         }],
         crash_is_violation: false,
